@@ -9,6 +9,7 @@
     knob sortplan d=… asc=1 keys=…                              keys per output partition after the sort
     knob bucketfn m=2 keys=… buckets=…                          is the bucket number a function of the key, < m
     knob shufflenparts nin=… se=… so=…                          ShuffleReduce's shuffle_npartitions
+    knob presorted asc=0 mins=… maxes=…                         the `presorted` flag of `_calculate_divisions`
 -/
 import DxModel.Graph
 import DxModel.Layers.KnobJoin
@@ -54,7 +55,10 @@ def rKey (side : KJ.Side) : KJ.Key → String
   | .out i => s!"@self:{i}"
 
 def rTask (p : KJ.Params) : Tsk KJ.Key → String
-  | .apply 0 [k] => s!"split_like_shuffle({rKey p.side k},n={p.bsize})"
+  | .apply 0 [k] =>
+      -- `other_on`: the key of the NON-broadcast side
+      let on := match p.side with | .right => "left_on" | .left => "right_on"
+      s!"split_like_shuffle({rKey p.side k},on={on},n={p.bsize})"
   | .apply 1 [a, b] => s!"merge_chunk({rKey p.side a},{rKey p.side b},how={rHow p.how})"
   | .apply (c + 2) [a, b] =>
       (match p.side with
@@ -143,6 +147,12 @@ def handle : List String → Option String
   | "knob" :: "layer" :: rest => some (handleLayer (kvs rest))
   | "knob" :: "mergelower" :: rest => some (handleLower (kvs rest))
   | "knob" :: "bucketfn" :: rest => some (handleBucket (kvs rest))
+  | "knob" :: "presorted" :: rest =>
+      let kv := kvs rest
+      (match getBool kv "asc", getInts kv "mins", getInts kv "maxes" with
+       | some asc, some mins, some maxes =>
+           if mins.length = maxes.length then some (bool01 (KS.presorted asc (mins.zip maxes))) else some "BAD params"
+       | _, _, _ => some "BAD params")
   | "knob" :: "shufflenparts" :: rest =>
       let kv := kvs rest
       (match getNat kv "nin", getNat kv "se", getNat kv "so" with
